@@ -443,6 +443,11 @@ func (s *SecureChannel) Receive(ctx context.Context) *MessageBody {
 
 			// todo(fs): not sure this is correct
 			if req, ok := msg.Request().(*ua.OpenSecureChannelRequest); ok {
+				// only a server opens channels on request of its peer
+				if s.kind != server {
+					msg.Err = ua.StatusBadServiceUnsupported
+					return msg
+				}
 				err := s.handleOpenSecureChannelRequest(reqID, req)
 				if err != nil {
 					debug.Printf("uasc %d/%d: handling %T failed: %v", s.c.ID(), reqID, req, err)
